@@ -6,7 +6,7 @@ CONSTANTS
   DEV <- GenDev
   WithSnap = TRUE
   SelfCopy = FALSE
-  Depth = 60
+  Depth = 40
 ACTION_CONSTRAINT Bias
 INVARIANT Emit
 CHECK_DEADLOCK FALSE
